@@ -396,9 +396,13 @@ pub fn on_cleanup(f: impl FnOnce() + 'static) {
 /// ```
 pub fn batch<T>(f: impl FnOnce() -> T) -> T {
     let root = Root::global();
+    // Only the outermost batch propagates the queued updates.
+    let nested = root.batching.get();
     root.start_batch();
     let ret = f();
-    root.end_batch();
+    if !nested {
+        root.end_batch();
+    }
     ret
 }
 
